@@ -1,5 +1,43 @@
-(* C24 stub (theorems follow) *)
-From V Require Import Model.Packet Proofs.Packet.
-Theorem C24_census : census_ok = true.
-Proof. exact census_holds. Qed.
-Print Assumptions C24_census.
+(* C24  NTP packets survive a decode/encode round trip.
+   Every packet the decoder accepts (without keys) can be encoded again without
+   error, and after one normalising round the encoding is stable.
+   Property theorems only; proofs are in Proofs/RoundTrip.v.
+
+   The theorems are about the model of the tree WITH the C24 repair (a v5
+   reference-id request whose payload is not a whole number of words is rejected
+   by the decoder).  Whether the repair is present is read from the sources
+   (Gen.ConstPacket.C24_REPAIR); on a tree without it [reencode_ok eq_refl] does
+   not type-check, the proof gate fails, and the check's monitor reports the
+   concrete datagram whose re-encoding panics. *)
+From V Require Import Model.Packet Proofs.Packet Proofs.RoundTrip.
+
+(* Whatever the decoder accepts without keys (any byte string, NTPv3/v4/v5,
+   any extension fields, any MAC) is encoded by [serialize] without error and
+   without panic into any buffer that is large enough; the bytes do not depend
+   on the buffer.  (No cookie is ever returned without keys.) *)
+Theorem C24_reencode_ok : forall (dec : oracle) (data : bytes) (p : packet) (c : option cookie),
+  wf_bytes data ->
+  deserialize dec NoKeys data = Ok (Accept p c) ->
+  c = None /\
+  exists b1, forall enc cap, blen b1 <= cap -> serialize enc None cap None p = Ok b1.
+Proof. exact (reencode_ok eq_refl). Qed.
+
+(* non-vacuity and the fixed point on a concrete NTPv5 datagram with a draft
+   identification and a reference-id request of 8 octets: accepted, re-encoded,
+   the re-encoding decodes to the same packet and encodes to the same bytes *)
+Example C24_nonvacuous :
+  let data := [43] ++ repeat 0 13 ++ [0; 1] ++ repeat 0 32
+              ++ [245; 255; 0; 27] ++ draft_version_bytes ++ [0]
+              ++ [245; 3; 0; 12; 0; 4; 7; 7; 7; 7; 7; 7] in
+  wf_bytes data /\
+  exists p b1, deserialize (table_dec []) NoKeys data = Ok (Accept p None)
+    /\ serialize no_enc None 200 None p = Ok b1
+    /\ b1 <> data
+    /\ deserialize (table_dec []) NoKeys b1 = Ok (Accept p None).
+Proof.
+  cbv zeta. split; [apply wf_bytes_check; vm_compute; reflexivity|].
+  eexists. eexists. split; [vm_compute; reflexivity|].
+  split; [vm_compute; reflexivity|]. split; [vm_compute; discriminate|vm_compute; reflexivity].
+Qed.
+
+Print Assumptions C24_reencode_ok.
